@@ -7,6 +7,7 @@ package main
 
 import (
 	"bytes"
+	"flag"
 	"context"
 	"encoding/json"
 	"fmt"
@@ -116,6 +117,14 @@ func goLiteral(t types.Type, v cval, qual types.Qualifier) string {
 
 // toValue converts a concrete tree to a symbolic-executor Value made of constants.
 func (v *Verifier) toValue(t types.Type, c cval) Value {
+	if v.isAbstract(t) {
+		// ring layer: an element is the integer (regular value) that its Montgomery words denote
+		fp := v.ringFieldOf(t)
+		if fp == nil || !v.isRing(t) {
+			panic("replay: abstract type " + t.String() + " has no concrete interpretation")
+		}
+		return v.F.Int(fp.fromMontWords(c))
+	}
 	switch u := t.Underlying().(type) {
 	case *types.Basic:
 		if b, ok := c.(bool); ok {
@@ -213,6 +222,51 @@ type replayPlan struct {
 	objTypes []types.Type // per alias class (pointer params)
 	objOf    map[int]int  // param index -> object index
 	objNames []string
+	globals  []globalLeaf // ring-layer replay: package-level field elements read back from the real code
+}
+
+// globalLeaf: a field element reachable from a package-level variable through struct fields (curveParams.D)
+type globalLeaf struct {
+	Expr string
+	G    *ssa.Global
+	Path []PE
+	T    types.Type
+}
+
+// ringGlobals lists the field-element leaves of the package-level variables of pkg (the layer must be set up).
+func ringGlobals(v *Verifier, pkg *ssa.Package) []globalLeaf {
+	var out []globalLeaf
+	var names []string
+	for n, m := range pkg.Members {
+		if _, ok := m.(*ssa.Global); ok {
+			names = append(names, n)
+		}
+	}
+	sort.Strings(names)
+	for _, n := range names {
+		g := pkg.Members[n].(*ssa.Global)
+		t := g.Type().Underlying().(*types.Pointer).Elem()
+		var walk func(t types.Type, expr string, path []PE, depth int)
+		walk = func(t types.Type, expr string, path []PE, depth int) {
+			if v.isRing(t) && v.ringFieldOf(t) != nil {
+				out = append(out, globalLeaf{Expr: expr, G: g, Path: append([]PE(nil), path...), T: t})
+				return
+			}
+			if depth > 3 {
+				return
+			}
+			if st, ok := t.Underlying().(*types.Struct); ok {
+				if nt, isNamed := t.(*types.Named); isNamed && nt.Obj().Pkg() != pkg.Pkg {
+					return // fields of foreign struct types may be unexported
+				}
+				for i := 0; i < st.NumFields(); i++ {
+					walk(st.Field(i).Type(), expr+"."+st.Field(i).Name(), append(path, PE{I: i}), depth+1)
+				}
+			}
+		}
+		walk(t, n, nil, 0)
+	}
+	return out
 }
 
 func newReplayPlan(ctx *ReplayCtx) *replayPlan {
@@ -263,6 +317,7 @@ func newReplayPlan(ctx *ReplayCtx) *replayPlan {
 type concreteInput struct {
 	objs    []cval          // per object
 	scalars map[int]cval    // param index -> value (non-pointer params)
+	gparams map[string]*big.Int // ring-layer replay: chosen values of the contract's ghost parameters
 }
 
 func (rp *replayPlan) inputFrom(get func(name string, ii intInfo, isBool bool) cval) *concreteInput {
@@ -283,14 +338,15 @@ func (rp *replayPlan) inputFrom(get func(name string, ii intInfo, isBool bool) c
 func (rp *replayPlan) testSource(inputs []*concreteInput) string {
 	fn := rp.ctx.Fn
 	pkg := rp.ctx.Pkg.Pkg
+	used := map[string]string{} // package name -> import path of the foreign packages named in literals
 	qual := func(p *types.Package) string {
 		if p == pkg {
 			return ""
 		}
+		used[p.Name()] = p.Path()
 		return p.Name()
 	}
 	var b strings.Builder
-	fmt.Fprintf(&b, "package %s\n\nimport (\n\t\"encoding/json\"\n\t\"fmt\"\n\t\"testing\"\n)\n\n", pkg.Name())
 	fmt.Fprintf(&b, "func TestGcvReplay(t *testing.T) {\n")
 	for k, in := range inputs {
 		fmt.Fprintf(&b, "\tfunc() {\n")
@@ -353,12 +409,27 @@ func (rp *replayPlan) testSource(inputs []*concreteInput) string {
 		for oi, t := range rp.objTypes {
 			odumps = append(odumps, dumpExpr(t, fmt.Sprintf("o%d", oi)))
 		}
-		fmt.Fprintf(&b, "\t\tout, _ := json.Marshal(map[string]interface{}{\"objs\": []interface{}{%s}, \"results\": []interface{}{%s}})\n", strings.Join(odumps, ", "), strings.Join(dumps, ", "))
+		var gdumps []string
+		for _, gl := range rp.globals {
+			gdumps = append(gdumps, dumpExpr(gl.T, gl.Expr))
+		}
+		fmt.Fprintf(&b, "\t\tout, _ := json.Marshal(map[string]interface{}{\"objs\": []interface{}{%s}, \"results\": []interface{}{%s}, \"globals\": []interface{}{%s}})\n", strings.Join(odumps, ", "), strings.Join(dumps, ", "), strings.Join(gdumps, ", "))
 		fmt.Fprintf(&b, "\t\tfmt.Printf(\"GCVOUT %d %%s\\n\", out)\n", k)
 		fmt.Fprintf(&b, "\t}()\n")
 	}
 	fmt.Fprintf(&b, "}\n")
-	return b.String()
+	var hdr strings.Builder
+	fmt.Fprintf(&hdr, "package %s\n\nimport (\n\t\"encoding/json\"\n\t\"fmt\"\n\t\"testing\"\n", pkg.Name())
+	var names []string
+	for n := range used {
+		names = append(names, n)
+	}
+	sort.Strings(names)
+	for _, n := range names {
+		fmt.Fprintf(&hdr, "\t%s %q\n", n, used[n])
+	}
+	fmt.Fprintf(&hdr, ")\n\n")
+	return hdr.String() + b.String()
 }
 
 // runTest executes the generated test through an overlay (nothing is written into the repository).
@@ -421,6 +492,7 @@ func (rp *replayPlan) evaluate(in *concreteInput, outJSON string) (violated []st
 	var parsed struct {
 		Objs    []interface{} `json:"objs"`
 		Results []interface{} `json:"results"`
+		Globals []interface{} `json:"globals"`
 	}
 	if strings.HasPrefix(outJSON, "PANIC") {
 		// a panic on an input satisfying the precondition violates every postcondition
@@ -429,6 +501,13 @@ func (rp *replayPlan) evaluate(in *concreteInput, outJSON string) (violated []st
 	v.resetRun()
 	v.setupLayer(ctx.Pkg, c)
 	F := v.F
+	ringFP := v.ringLayerField(ctx.Pkg, c)
+	if c.Layer != "" && ringFP == nil {
+		return nil, false, "the contract's layer has no concrete interpretation (replay covers machine-word contracts and ring layers over one prime field)"
+	}
+	if ringFP != nil {
+		F.ModQ = ringFP.Q
+	}
 	fr := v.newFrame(fn, nil)
 	fr.top = true
 	fr.c = c
@@ -453,6 +532,32 @@ func (rp *replayPlan) evaluate(in *concreteInput, outJSON string) (violated []st
 		return st, vars, os
 	}
 	entry, vars, objs := mk(in.objs)
+	// package-level field elements as the real code holds them (read back by the test after the call)
+	if ringFP != nil && outJSON != "" && len(rp.globals) > 0 {
+		var pg struct {
+			Globals []interface{} `json:"globals"`
+		}
+		dg := json.NewDecoder(strings.NewReader(outJSON))
+		dg.UseNumber()
+		if dg.Decode(&pg) == nil && len(pg.Globals) == len(rp.globals) {
+			for i, gl := range rp.globals {
+				cv, okc := decodeJSON(gl.T, pg.Globals[i])
+				if !okc {
+					continue
+				}
+				o, okg := v.globalObj(entry, gl.G)
+				if !okg {
+					continue
+				}
+				nc := v.setPath(v.content(entry, o), gl.Path, v.toValue(gl.T, cv))
+				entry.mem[o] = nc
+				v.globalInit[gl.G] = nc
+			}
+		}
+	}
+	for g, k := range in.gparams {
+		entry.ghosts[g] = F.Int(k)
+	}
 	fr.params = vars
 	fr.entry = entry
 	se := &SpecEnv{fr: fr, st: entry, old: entry, vars: vars, pkg: ctx.Pkg, fn: fn}
@@ -526,7 +631,46 @@ func (rp *replayPlan) evaluate(in *concreteInput, outJSON string) (violated []st
 	}
 	// ghosts become free variables (existential witnesses)
 	gl := map[string]*Term{}
+	// ghosts that are only defined at entry (never reassigned at a cut or in a loop) are evaluated on the concrete
+	// entry state; the others are existential witnesses
+	reassigned := map[string]bool{}
+	for _, ct := range c.Cuts {
+		for _, g := range ct.Ghosts {
+			reassigned[g.Name] = true
+		}
+		for _, g := range ct.GhostPost {
+			reassigned[g.Name] = true
+		}
+	}
+	for _, an := range c.Loops {
+		for _, g := range an.Ghosts {
+			reassigned[g.Name] = true
+		}
+	}
+	for g, k := range in.gparams {
+		gl[g] = F.Int(k)
+	}
 	for _, g := range c.Ghosts {
+		if ringFP != nil && !reassigned[g.Name] {
+			var t *Term
+			func() {
+				defer func() {
+					if r := recover(); r != nil {
+						t = nil
+					}
+				}()
+				ge := &SpecEnv{fr: fr, st: entry, old: entry, vars: vars, pkg: ctx.Pkg, fn: fn, ghostLocal: gl}
+				if specIsBool(g.E) {
+					t = ge.evalBool(g.E)
+				} else {
+					t = ge.evalTerm(g.E)
+				}
+			}()
+			if t != nil {
+				gl[g.Name] = t
+				continue
+			}
+		}
 		gl[g.Name] = F.Var("ghost!"+g.Name, SInt)
 		ghostVars = true
 	}
@@ -542,6 +686,13 @@ func (rp *replayPlan) evaluate(in *concreteInput, outJSON string) (violated []st
 		}
 		if t.IsFalse() {
 			violated = append(violated, e.Name)
+			continue
+		}
+		if ringFP != nil {
+			// ring layer: a clause that does not fold to a constant still mentions something without a concrete
+			// value here (a package-level parameter such as the curve coefficient d, an uninterpreted choice of
+			// square root): it is undecided on this input, never counted as violated
+			note += "clause " + e.Name + " not fully concrete on this input; "
 			continue
 		}
 		// residual formula over ghost witnesses / uninterpreted spec functions: is it satisfiable at all?
@@ -616,6 +767,13 @@ func replayModel(repo string, o *Obligation, dir, id string) *replayResult {
 	defer os.RemoveAll(scratch)
 	var inputs []*concreteInput
 	var sources []string
+	if ctx.C.Layer != "" {
+		ringFP := ctx.V.ringLayerField(ctx.Pkg, ctx.C)
+		if ringFP == nil {
+			return &replayResult{Log: "replay not supported for this contract's layer (covered: machine-word contracts, ring layers over one prime field)"}
+		}
+		return replayRing(rp, ringFP, o, scratch)
+	}
 	// 1. the solver model
 	if o.Result != nil && o.Result.Model != nil {
 		m := o.Result.Model
@@ -742,4 +900,442 @@ func boundaryWord(rng *rand.Rand, ii intInfo, fp *FieldParams, name string, kind
 		r.Mod(r, qlimb)
 	}
 	return r
+}
+
+// ---------- ring-layer replay ----------
+
+// ringFieldOf: the prime field whose Element type t is (nil when t is not a field element type with a pinned modulus)
+func (v *Verifier) ringFieldOf(t types.Type) *FieldParams {
+	n, ok := t.(*types.Named)
+	if !ok || n.Obj().Pkg() == nil {
+		return nil
+	}
+	sp := v.prog.Package(n.Obj().Pkg())
+	if sp == nil {
+		return nil
+	}
+	return v.fieldParams(sp)
+}
+
+func (fp *FieldParams) fromMontWords(c cval) *big.Int {
+	ws, _ := c.([]interface{})
+	m := new(big.Int)
+	for i := len(ws) - 1; i >= 0; i-- {
+		m.Lsh(m, uint(fp.WordBits))
+		m.Add(m, ws[i].(*big.Int))
+	}
+	rinv := new(big.Int).ModInverse(fp.R, fp.Q)
+	return m.Mul(m, rinv).Mod(m, fp.Q)
+}
+
+func (fp *FieldParams) toMontWords(x *big.Int) cval {
+	m := new(big.Int).Mod(x, fp.Q)
+	m.Mul(m, fp.R).Mod(m, fp.Q)
+	out := make([]interface{}, fp.Limbs)
+	mask := new(big.Int).Sub(pow2(fp.WordBits), big.NewInt(1))
+	for i := 0; i < fp.Limbs; i++ {
+		out[i] = new(big.Int).And(new(big.Int).Rsh(m, uint(i*fp.WordBits)), mask)
+	}
+	return out
+}
+
+// ringLayer: the prime field of the contract's ring layer when every abstract type of the layer is the Element of
+// one prime field (then specifications can be evaluated concretely modulo q); nil otherwise
+func (v *Verifier) ringLayerField(pkg *ssa.Package, c *Contract) *FieldParams {
+	if c.Layer == "" {
+		return nil
+	}
+	f := strings.Fields(c.Layer)
+	kind := f[0]
+	var fp *FieldParams
+	for _, tn := range f {
+		if tn == "ring" || tn == "opaque" || tn == "bigint" {
+			kind = tn
+			continue
+		}
+		if kind != "ring" {
+			return nil
+		}
+		t := v.resolveType(pkg, tn)
+		if t == nil {
+			return nil
+		}
+		p := v.ringFieldOf(t)
+		if p == nil || (fp != nil && p.Q.Cmp(fp.Q) != 0) {
+			return nil
+		}
+		fp = p
+	}
+	return fp
+}
+
+// buildInputRing: like buildInput, with ring elements chosen as field values (assign) and stored as Montgomery words
+func buildInputRing(v *Verifier, t types.Type, prefix string, assign func(name string) *big.Int, get func(name string, ii intInfo, isBool bool) cval) cval {
+	if v.isRing(t) {
+		if fp := v.ringFieldOf(t); fp != nil {
+			return fp.toMontWords(assign(prefix))
+		}
+	}
+	switch u := t.Underlying().(type) {
+	case *types.Array:
+		out := make([]interface{}, u.Len())
+		for i := range out {
+			out[i] = buildInputRing(v, u.Elem(), fmt.Sprintf("%s_%d", prefix, i), assign, get)
+		}
+		return out
+	case *types.Struct:
+		out := make([]interface{}, u.NumFields())
+		for i := range out {
+			out[i] = buildInputRing(v, u.Field(i).Type(), prefix+"."+u.Field(i).Name(), assign, get)
+		}
+		return out
+	}
+	return buildInput(t, prefix, get)
+}
+
+// ringInput chooses field values for every element leaf and ghost parameter, then applies the contract's entry
+// parametrisation (lets, under the partition's scenario) by evaluating it concretely modulo q.
+func (rp *replayPlan) ringInput(fp *FieldParams, assign func(name string) *big.Int, get func(name string, ii intInfo, isBool bool) cval) (in *concreteInput, ok bool) {
+	defer func() {
+		if r := recover(); r != nil {
+			in, ok = nil, false
+		}
+	}()
+	ctx := rp.ctx
+	v := ctx.V
+	fn := ctx.Fn
+	c := ctx.C
+	v.resetRun()
+	v.setupLayer(ctx.Pkg, c)
+	v.F.ModQ = fp.Q
+	in = &concreteInput{scalars: map[int]cval{}, gparams: map[string]*big.Int{}}
+	for oi, t := range rp.objTypes {
+		in.objs = append(in.objs, buildInputRing(v, t, rp.objNames[oi], assign, get))
+	}
+	for i, p := range fn.Params {
+		if _, isObj := rp.objOf[i]; isObj {
+			continue
+		}
+		in.scalars[i] = buildInputRing(v, p.Type(), p.Name(), assign, get)
+	}
+	for _, g := range c.GhostParams {
+		in.gparams[g] = new(big.Int).Mod(assign("gp!"+g), fp.Q)
+	}
+	// entry parametrisation
+	lets := c.Lets
+	if sc := ctx.Part.scen; sc != nil {
+		lets = nil
+		for _, l := range c.Lets {
+			if !sc.Free[l.Name] {
+				lets = append(lets, l)
+			}
+		}
+		lets = append(lets, sc.Set...)
+	}
+	if len(lets) == 0 {
+		return in, true
+	}
+	F := v.F
+	fr := v.newFrame(fn, nil)
+	fr.top = true
+	fr.c = c
+	st := &State{mem: map[*Object]Value{}, pc: F.True(), ghosts: map[string]*Term{}, srcVar: map[string]Value{}, srcAdr: map[string]bool{}}
+	st.envs = []map[ssa.Value]Value{{}}
+	vars := map[string]Value{}
+	var objs []*Object
+	for oi, t := range rp.objTypes {
+		o := v.newObject(rp.objNames[oi], t, true)
+		st.mem[o] = v.toValue(t, in.objs[oi])
+		objs = append(objs, o)
+	}
+	for i, p := range fn.Params {
+		if oi, isPtr := rp.objOf[i]; isPtr {
+			vars[p.Name()] = &PtrV{Obj: objs[oi]}
+		} else {
+			vars[p.Name()] = wrapTyped(v.toValue(p.Type(), in.scalars[i]), p.Type())
+		}
+	}
+	for g, k := range in.gparams {
+		st.ghosts[g] = F.Int(k)
+	}
+	fr.params = vars
+	fr.entry = st
+	se := &SpecEnv{fr: fr, st: st, old: st, vars: vars, pkg: ctx.Pkg, fn: fn}
+	letSet := map[string]*Term{}
+	for _, l := range lets {
+		le, err := parseSpec(l.Name)
+		if err != nil {
+			return nil, false
+		}
+		lv, isP := se.eval(le.Parts[0]).(*PtrV)
+		if !isP || lv.Obj == nil {
+			return nil, false
+		}
+		cellKey := fmt.Sprintf("%d/%v", lv.Obj.ID, pathKey(lv.Path))
+		if prev, done := letSet[cellKey]; done {
+			// the cell was already parametrised through an aliased operand (p == q): identify this let's ghost
+			// parameter with the one used there, as the symbolic run does
+			identified := false
+			for _, g := range c.GhostParams {
+				if !strings.Contains(l.E.Src, g) {
+					continue
+				}
+				saved := st.ghosts[g]
+				for _, g2 := range c.GhostParams {
+					if g2 == g {
+						continue
+					}
+					st.ghosts[g] = F.Int(in.gparams[g2])
+					if t := se.evalTerm(l.E); t.IsConst() && t.K.Cmp(prev.K) == 0 {
+						in.gparams[g] = in.gparams[g2]
+						identified = true
+						break
+					}
+				}
+				if identified {
+					break
+				}
+				st.ghosts[g] = saved
+			}
+			if !identified {
+				return nil, false
+			}
+			continue
+		}
+		rhs := se.evalTerm(l.E)
+		if !rhs.IsConst() {
+			return nil, false
+		}
+		letSet[cellKey] = rhs
+		st.mem[lv.Obj] = v.setPath(v.content(st, lv.Obj), lv.Path, rhs)
+		// write the value back into the concrete input tree
+		for oi, o := range objs {
+			if o != lv.Obj {
+				continue
+			}
+			var set func(t types.Type, cur cval, path []PE) cval
+			set = func(t types.Type, cur cval, path []PE) cval {
+				if len(path) == 0 {
+					if f := v.ringFieldOf(t); f != nil && v.isRing(t) {
+						return f.toMontWords(rhs.K)
+					}
+					panic("let on a non-element cell")
+				}
+				l := append([]interface{}(nil), cur.([]interface{})...)
+				i := path[0].I
+				switch u := t.Underlying().(type) {
+				case *types.Struct:
+					l[i] = set(u.Field(i).Type(), l[i], path[1:])
+				case *types.Array:
+					l[i] = set(u.Elem(), l[i], path[1:])
+				default:
+					panic("let path through a scalar")
+				}
+				return l
+			}
+			in.objs[oi] = set(rp.objTypes[oi], in.objs[oi], lv.Path)
+		}
+	}
+	return in, true
+}
+
+// replayRing: replay of a ring-layer obligation on the real code over the concrete prime field: the solver model
+// (integers, reduced modulo q) first, then special values and seeded random field elements.
+func replayRing(rp *replayPlan, fp *FieldParams, o *Obligation, scratch string) *replayResult {
+	var inputs []*concreteInput
+	var sources []string
+	rp.ctx.V.resetRun()
+	rp.ctx.V.setupLayer(rp.ctx.Pkg, rp.ctx.C)
+	rp.globals = ringGlobals(rp.ctx.V, rp.ctx.Pkg)
+	get := func(name string, ii intInfo, isB bool) cval {
+		if isB {
+			return false
+		}
+		return big.NewInt(0)
+	}
+	if o.Result != nil && o.Result.Model != nil {
+		m := o.Result.Model
+		if in, ok := rp.ringInput(fp, func(name string) *big.Int {
+			if k, ok := m[name]; ok {
+				return new(big.Int).Mod(k, fp.Q)
+			}
+			return big.NewInt(1)
+		}, get); ok {
+			inputs = append(inputs, in)
+			sources = append(sources, "solver-model")
+		}
+	}
+	seed := int64(1)
+	if s := os.Getenv("VERIF_SEED"); s != "" {
+		fmt.Sscan(s, &seed)
+	}
+	rng := rand.New(rand.NewSource(seed))
+	special := []*big.Int{big.NewInt(0), big.NewInt(1), new(big.Int).Sub(fp.Q, big.NewInt(1)), big.NewInt(2)}
+	for k := 0; k < 144; k++ {
+		kind := k
+		leaf := 0
+		if in, ok := rp.ringInput(fp, func(name string) *big.Int {
+			j := leaf
+			leaf++
+			switch {
+			case kind < 64:
+				// every pattern of zero / non-zero among (up to) six element leaves: the branches of the point
+				// formulas are selected by zero tests (points at infinity, equal or opposite operands)
+				if (kind>>(uint(j)%6))&1 == 1 {
+					return big.NewInt(0)
+				}
+			case kind < 104:
+				if rng.Intn(3) == 0 {
+					return special[rng.Intn(len(special))]
+				}
+			}
+			return new(big.Int).Rand(rng, fp.Q)
+		}, func(name string, ii intInfo, isB bool) cval {
+			if isB {
+				return rng.Intn(2) == 1
+			}
+			return boundaryWord(rng, ii, fp, name, kind)
+		}); ok {
+			inputs = append(inputs, in)
+			sources = append(sources, "random-field-elements")
+		}
+	}
+	res := &replayResult{Tried: len(inputs)}
+	if len(inputs) == 0 {
+		res.Log = "no concrete input could be built for this contract's entry parametrisation"
+		return res
+	}
+	src := rp.testSource(inputs)
+	outs, log := rp.runTest(src, scratch)
+	if len(outs) == 0 {
+		res.Log = "replay test produced no output:\n" + log
+		return res
+	}
+	var keys []int
+	for k := range outs {
+		keys = append(keys, k)
+	}
+	sort.Ints(keys)
+	for _, k := range keys {
+		viol, ok, note := rp.evaluate(inputs[k], outs[k])
+		if !ok {
+			if k == 0 {
+				res.Log += "first input not usable: " + note + "\n"
+			}
+			continue
+		}
+		if len(viol) > 0 {
+			res.Confirmed = true
+			res.Source = sources[k]
+			res.Violated = viol
+			var ov []interface{}
+			for _, ob := range inputs[k].objs {
+				ov = append(ov, cvalJSON(ob))
+			}
+			gp := map[string]string{}
+			for g, kk := range inputs[k].gparams {
+				gp[g] = kk.String()
+			}
+			res.Inputs = map[string]interface{}{"objects": rp.objNames, "values_montgomery_words": ov, "scalars": scalarsJSON(rp, inputs[k]), "ghost_parameters": gp}
+			res.Outputs = outs[k]
+			res.Test = rp.testSource([]*concreteInput{inputs[k]})
+			res.Log += note
+			return res
+		}
+	}
+	res.Log += "no tried input violates a postcondition on the real code"
+	return res
+}
+
+// cmdReplaySelftest: oracle sanity check of the replay evaluator. For every contract of a package whose
+// parameter types are replayable, random inputs are run through the real code of the CURRENT tree and the
+// contract clauses are evaluated on the outputs: on a tree where the contracts are proved, nothing may be reported
+// as violated (a report means the concrete evaluator, not the code, is wrong).
+func cmdReplaySelftest(args []string) {
+	fs := flag.NewFlagSet("replay-selftest", flag.ExitOnError)
+	repo := fs.String("repo", "/repo", "repository root")
+	tags := fs.String("tags", "", "build tags")
+	pkgPat := fs.String("pkg", "", "package pattern")
+	only := fs.String("func", "", "only these contracts")
+	verifRoot := fs.String("verif", "/verif", "verif root")
+	fs.Parse(args)
+	v := NewVerifier()
+	v.pinned = loadPinned(*verifRoot + "/contracts/params.json")
+	if err := v.Load(*repo, *tags, *pkgPat); err != nil {
+		fmt.Fprintln(os.Stderr, "load:", err)
+		os.Exit(2)
+	}
+	pkg := v.spkgs[v.pkgs[0].PkgPath]
+	if err := v.LoadContracts(*repo, pkg.Pkg.Path()); err != nil {
+		fmt.Fprintln(os.Stderr, err)
+		os.Exit(2)
+	}
+	want := map[string]bool{}
+	for _, f := range strings.Split(*only, ",") {
+		if f != "" {
+			want[f] = true
+		}
+	}
+	rel := strings.TrimPrefix(pkg.Pkg.Path(), "github.com/consensys/gnark-crypto/")
+	bad := 0
+	for _, key := range sortedContractKeys(v.contracts) {
+		c := v.contracts[key]
+		if !strings.HasPrefix(key, rel+".") || c.Theorem || c.Assumed != "" || strings.HasPrefix(c.Func, "(") {
+			continue
+		}
+		if len(want) > 0 && !want[c.Func] {
+			continue
+		}
+		fn := v.findFunc(pkg, c.Func)
+		if fn == nil || len(fn.Blocks) == 0 {
+			continue
+		}
+		func() {
+			defer func() {
+				if r := recover(); r != nil {
+					fmt.Printf("%-60s skipped (%v)\n", rel+"."+c.Func, r)
+				}
+			}()
+			v.resetRun()
+			v.setupLayer(pkg, c)
+			for _, p := range v.partitions(fn, c) {
+				ctx := &ReplayCtx{V: v, Pkg: pkg, Fn: fn, C: c, Part: p, Tags: *tags, Repo: *repo}
+				o := &Obligation{Name: rel + "." + c.Func + "#selftest@" + p.label, Ctx: ctx}
+				scratch, _ := os.MkdirTemp("", "gcv-replay-")
+				r := replayModel(*repo, o, scratch, "selftest")
+				os.RemoveAll(scratch)
+				switch {
+				case r == nil:
+					fmt.Printf("%-60s %-14s no replay\n", rel+"."+c.Func, p.label)
+				case r.Confirmed:
+					bad++
+					fmt.Printf("%-60s %-14s EVALUATOR-DISAGREES violated=%v source=%s\n", rel+"."+c.Func, p.label, r.Violated, r.Source)
+				default:
+					msg := r.Log
+					if i := strings.Index(msg, "\n"); i > 0 {
+						msg = msg[:i]
+					}
+					if len(msg) > 90 {
+						msg = msg[:90]
+					}
+					fmt.Printf("%-60s %-14s ok tried=%d %s\n", rel+"."+c.Func, p.label, r.Tried, msg)
+				}
+			}
+		}()
+	}
+	if bad > 0 {
+		os.Exit(1)
+	}
+}
+
+func pathKey(p []PE) string {
+	var sb strings.Builder
+	for _, e := range p {
+		if e.T != nil {
+			fmt.Fprintf(&sb, "[%d]", e.T.id)
+		} else {
+			fmt.Fprintf(&sb, ".%d", e.I)
+		}
+	}
+	return sb.String()
 }
